@@ -586,6 +586,48 @@ def c09_rt(d):
   return {"status": "refuted", "observed": {"probes": len(probes)}}
 
 
+@replayer("c10_grammar")
+def c10_grammar(d):
+  """The Regex patterns the REAL GetParams hands to pyparsing (recorded by wrapping qkeras.safe_eval.Regex) against the
+  documented item syntax, on the text the solver found in exactly one of the two languages; for a value text the real
+  GetParams is also run on '(0, k=<text>)'."""
+  import re
+  import sys
+  import qkeras  # noqa: F401  (qkeras.safe_eval the attribute is the function; the module is in sys.modules)
+  SE = sys.modules["qkeras.safe_eval"]
+  rep = (d.get("witness") or {}).get("__replay__") or {}
+  diff = (rep.get("differences") or {}).get(d["clause"])
+  if not diff:
+    return {"status": "unsupported", "detail": "no language difference recorded for clause %s" % d["clause"]}
+  pats, real = [], SE.Regex
+
+  def rec(p, *a, **k):
+    pats.append(p)
+    return real(p, *a, **k)
+  SE.Regex = rec
+  try:
+    SE.GetParams("()")
+  finally:
+    SE.Regex = real
+  if len(pats) != 2:
+    return {"status": "error", "detail": "GetParams built %d Regex elements" % len(pats)}
+  text = diff["text"]
+  sp = lambda c: re.fullmatch(r"\s", c) is not None
+  if d["clause"] == "key_language":
+    pat, want = pats[0], len(text) > 0 and not any(c in "=,)" or sp(c) for c in text)
+  else:
+    pat, want = pats[1], not any(c in ",)" for c in text)
+  got = re.fullmatch(pat, text) is not None
+  obs = {"pattern": pat, "text": text, "pattern_accepts": got, "documented_syntax_accepts": want}
+  if d["clause"] == "value_language":
+    try:
+      obs["GetParams"] = repr(SE.GetParams("(0, k=" + text + ")"))
+    except Exception as e:    # pylint: disable=broad-except
+      obs["GetParams"] = "raised " + repr(e)[:200]
+  return {"status": "confirmed" if got != want else "refuted", "observed": obs,
+          "expected": "the item pattern accepts exactly the documented item syntax"}
+
+
 @replayer("c10_str")
 def c10_str(d):
   """str(q) -> get_quantizer(text) natively; compare on probe tensors."""
